@@ -278,6 +278,10 @@ class ConvexPolyhedron(Polyhedron):
                 the scale_factor to the correct value for the desired property.
         """
         _validate_scale(scale_factor)
+        # The stored volume and area are updated with powers of the factor, so it must
+        # be a double: a float32 target makes the setters derive a float32 factor, and
+        # its powers would leave the stored measures at single precision.
+        scale_factor = float(scale_factor)
         self._vertices *= scale_factor
         self._equations[:, 3] *= scale_factor
         self._simplex_equations[:, 3] *= scale_factor
